@@ -34,7 +34,9 @@ KNOWN_ID = None
 KNOWN_PATH = ("(*GoType).GetConverter", "object.getTypeConverter", "object.createTypeConverter", "object.newGoType")
 
 PROXY = ["proxy_slices", "proxy_structs", "proxy_maps", "proxy_fields"]
-GUARDED = ["globals", "codecs", "arith", "modules", "import", "shared_code", "spawn", "bad_import", "syntax"]
+GUARDED = ["globals", "codecs", "codecs_held", "codecs_held", "arith", "modules", "import", "shared_code", "spawn", "spawn_import", "spawn_import_many", "bad_import", "syntax"]
+# programs that check themselves: every element of the result must be true, alone and under concurrency
+SELF_CHECKING = {"codecs_held": [True] * 5, "spawn_import": [3, 7, 42], "spawn_import_many": [[4, 5, 6, 7, 8, 9], 13, 6]}
 
 
 def load_known():
@@ -221,6 +223,8 @@ def run(res):
         os.makedirs(moddir)
         open(os.path.join(moddir, "c09mod.risor"), "w").write("func add(a, b) { return a + b }\n")
         open(os.path.join(moddir, "c09mod2.risor"), "w").write("func twice(x) { return x * 2 }\n")
+        for _k in range(3, 9):
+            open(os.path.join(moddir, "c09mod%d.risor" % _k), "w").write("base := %d\nfunc plus(x) { return x + base }\n" % _k)
         rng = C.Rng(res.seed)
         ntr_g = 20 if quick else 150
         ntr_f = 20 if quick else 150
@@ -270,6 +274,19 @@ def run(res):
                     report=txt[-1500:])
                 (known_hits if kn and kind == "full" else oracle_viol).append(item)
                 continue
+            # self-checking programs: an independent expectation (a defect that shows in a single evaluation too would
+            # agree with the sequential twin)
+            for k, j in enumerate(jobs):
+                want = SELF_CHECKING.get(j["prog"])
+                if want is not None:
+                    for lab, rr in (("concurrently", cres), ("alone", sres)):
+                        got = rr[k].get("value") if k < len(rr) and isinstance(rr[k], dict) else None
+                        if got != want:
+                            oracle_viol.append(dict(case, why="evaluation %d (%s, tag %s) run %s gave %r, not %r: this program checks itself (values of "
+                                                              "codecs still held while other encodings run; modules first imported on a spawned thread and then used "
+                                                              "by the main code and other threads)" % (
+                                                                  k, j["prog"], j["tag"], lab, rr[k] if k < len(rr) else None, want)))
+                            break
             # results against the sequential twin
             diff = [k for k in range(len(jobs)) if k >= len(cres) or cres[k] != sres[k]]
             if diff:
@@ -397,6 +414,8 @@ def replay(data):
     try:
         open(os.path.join(work, "c09mod.risor"), "w").write("func add(a, b) { return a + b }\n")
         open(os.path.join(work, "c09mod2.risor"), "w").write("func twice(x) { return x * 2 }\n")
+        for _k in range(3, 9):
+            open(os.path.join(work, "c09mod%d.risor" % _k), "w").write("base := %d\nfunc plus(x) { return x + base }\n" % _k)
         for attempt in range(5):
             rc, resu, err = run_trial(obs, data["jobs"], "conc", work, data.get("register_codecs_concurrently", False))
             n = err.count("WARNING: DATA RACE")
